@@ -26,13 +26,15 @@ open Pyro Pyro.Streams
     `ITER_STREAM_LINGER > 0`, lifetime expiry is `0 < LIFETIME < now - created`, linger expiry is
     `now - linger_start > LINGER`; `get_next_stream_item` catches `Exception` around `next(stream)` and
     re-raises; the proxy's sequence number is 16 bits; the client iterator drops its proxy after
-    StopIteration / GeneratorExit. -/
+    StopIteration / GeneratorExit; the user hook `clientDisconnect(conn)` is the last statement of
+    `_clientDisconnect`, so a hook that raises cannot skip the stream bookkeeping (`Settings.hookFails`
+    only changes the reply of `disconnect`). -/
 theorem C10_gen_facts :
     Pyro.Gen.C10.compares = ["config.ITER_STREAM_LINGER > 0", "config.ITER_STREAM_LIFETIME > 0",
       "0 < config.ITER_STREAM_LIFETIME < last_use_period", "config.ITER_STREAM_LINGER > 0",
       "linger_period > config.ITER_STREAM_LINGER"] ∧
     Pyro.Gen.C10.nextCatches = ["Exception"] ∧ Pyro.Gen.C10.nextReraises = true ∧
-    Pyro.Gen.C10.seqMask = 65535 ∧
+    Pyro.Gen.C10.seqMask = 65535 ∧ Pyro.Gen.C10.disconnectHookLast = true ∧
     Pyro.Gen.C10.clientStopCatches = ["StopIteration", "GeneratorExit"] ∧
     Pyro.Gen.C10.removals.map (·.1) = ["get_next_stream_item", "close_stream", "_clientDisconnect", "_housekeeping"] := by
   decide
@@ -437,6 +439,14 @@ example : delivered 0 (exec cfgA (State.init 100) (histA.take 6)).2 = [.val 7, .
 -- expiry: both streams of histA's prefix are owned by connections 1 and 2; they end, 5 > linger passes, housekeeping
 example : (exec { cfgA with lifetime := 0 } (exec { cfgA with lifetime := 0 } (State.init 100) (histA.take 6)).1
     ([1, 2].map .disconnect ++ [.tick 5, .housekeeping])).1.table = [] := by decide
+-- a daemon whose disconnect hook raises: the error is reported, the stream is dropped all the same (no linger) …
+example : (exec { streaming := true, lifetime := 0, linger := 0, hookFails := true } (State.init 100)
+    [.open 0 (.iter [.val 1, .val 2]), .next 0 0, .disconnect 0, .next 0 1]).2.map (·.2) =
+    [.stream 0, .item 1, .hookError, .terminated] := by decide
+-- … or lingers and expires (linger 4), and a client coming back after that gets the error
+example : (exec { streaming := true, lifetime := 0, linger := 4, hookFails := true } (State.init 100)
+    [.open 0 (.iter [.val 1, .val 2]), .next 0 0, .disconnect 0, .tick 5, .housekeeping, .next 0 1]).2.map (·.2) =
+    [.stream 0, .item 1, .hookError, .ok, .ok, .terminated] := by decide
 -- forgetCond: the lifetime branch and the linger branch both occur
 example : forgetCond cfgA 111 1 { owner := some 1, created := 100, linger := 0, rest := [] } .housekeeping := by
   simp [forgetCond, cfgA]
